@@ -352,6 +352,31 @@ func runC13(tier string, seed int64, si, sn int, rep *monitor.Report, note func(
 			rep.Sample(P, fmt.Sprintf("%d pods, %d nodes, %d permutations: requests (%vm, %vB), capacity (%vm, %vB)", np, nn, perms, wantC, wantM, wantCapC, wantCapM))
 		}
 	}
+	// large clusters: totals up to 1000 nodes x 512 GiB, requests up to three times the capacity
+	big1 := 3000
+	if tier == "thorough" {
+		big1 = 60000
+	}
+	for it := 0; it < big1/sn; it++ {
+		U := int64(1 + r.Intn(1000))
+		cpuNode := []int64{1000, 2000, 16000, 96000}[r.Intn(4)]
+		memNode := []int64{4 << 30, 64 << 30, 512 << 30}[r.Intn(3)]
+		capC, capM := U*cpuNode, U*memNode
+		reqC := int64(r.Float64() * 3 * float64(capC))
+		reqM := int64(r.Float64() * 3 * float64(capM))
+		evals++
+		cp, mp, err := controller.VerifCalcPercentUsage(milliQ(reqC), byteQ(reqM), milliQ(capC), byteQ(capM), U)
+		wc, _ := oracle.Percent(big.NewInt(reqC), big.NewInt(capC)).Float64()
+		wm, _ := oracle.Percent(big.NewInt(reqM), big.NewInt(capM)).Float64()
+		sz := "mem<64TiB"
+		if reqM > 64<<40 {
+			sz = "mem>64TiB"
+		}
+		rep.Covered(P, "calc:large:"+sz)
+		if err != nil || relErr(cp, wc) > 1e-12 || relErr(mp, wm) > 1e-12 {
+			rep.Violate(P, "percent-mismatch-large", "percent usage (%v, %v, %v) for req=(%dm,%dB) cap=(%dm,%dB); exact is (%v, %v)", cp, mp, err, reqC, reqM, capC, capM, wc, wm)
+		}
+	}
 	return Outcome{Evaluations: evals}
 }
 
